@@ -237,10 +237,10 @@ def gen_labels():
     want = {
         "keywords_set": "set(keyword.kwlist)",
         "builtins_set": "set(__builtins__.keys())",
-        "blacklist_words": "frozenset(keywords_set | builtins_set | other_common_names_set)",
     }
     found = {}
-    other = None
+    literal_sets = {}          # module-level names bound to a set of string literals (other_common_names_set, ...)
+    bl_expr = None
     ones = None
     meta_name = None
     for n in tree.body:
@@ -248,10 +248,12 @@ def gen_labels():
             nm = n.targets[0].id
             if nm in want:
                 found[nm] = ast.unparse(n.value)
-            elif nm == "other_common_names_set":
+            elif nm == "blacklist_words":
+                bl_expr = n.value
+            elif nm.endswith("_set"):
                 if not (isinstance(n.value, ast.Set) and all(isinstance(e, ast.Constant) and isinstance(e.value, str) for e in n.value.elts)):
-                    raise Unsupported("other_common_names_set is not a set of string literals")
-                other = sorted(e.value for e in n.value.elts)
+                    raise Unsupported(f"{nm} is not a set of string literals")
+                literal_sets[nm] = sorted(e.value for e in n.value.elts)
             elif nm == "ones":
                 if not (isinstance(n.value, ast.List) and all(isinstance(e, ast.Constant) and isinstance(e.value, str) for e in n.value.elts)):
                     raise Unsupported("ones is not a list of string literals")
@@ -263,8 +265,29 @@ def gen_labels():
     for k, v in want.items():
         if found.get(k) != v:
             raise Unsupported(f"{k} = {found.get(k)!r}, expected {v!r}")
-    if other is None or ones is None or meta_name is None:
-        raise Unsupported("other_common_names_set / ones / METADATA_FIELD_NAME missing")
+    if bl_expr is None or ones is None or meta_name is None or "other_common_names_set" not in literal_sets:
+        raise Unsupported("blacklist_words / other_common_names_set / ones / METADATA_FIELD_NAME missing")
+    # blacklist_words = frozenset(A | B | ...): a union of keywords_set, builtins_set and literal sets, nothing else
+    if not (isinstance(bl_expr, ast.Call) and isinstance(bl_expr.func, ast.Name) and bl_expr.func.id == "frozenset"
+            and len(bl_expr.args) == 1 and not bl_expr.keywords):
+        raise Unsupported("blacklist_words = " + ast.unparse(bl_expr))
+
+    def union_names(e):
+        if isinstance(e, ast.BinOp) and isinstance(e.op, ast.BitOr):
+            return union_names(e.left) + union_names(e.right)
+        if isinstance(e, ast.Name):
+            return [e.id]
+        raise Unsupported("blacklist_words: unsupported operand " + ast.unparse(e))
+    parts = union_names(bl_expr.args[0])
+    if "keywords_set" not in parts or "builtins_set" not in parts:
+        raise Unsupported("blacklist_words does not include keywords_set and builtins_set: " + ast.unparse(bl_expr))
+    other = []
+    for nm in parts:
+        if nm in want:
+            continue
+        if nm not in literal_sets:
+            raise Unsupported(f"blacklist_words: {nm} is not a set of string literals")
+        other += literal_sets[nm]
     bl = sorted(set(keyword.kwlist) | set(builtins.__dict__.keys()) | set(other))
     out = HEADER.format(src="models/base.py (+ keyword.kwlist and builtins of /venv/bin/python)")
     out += "Definition blacklist : list str :=\n  [" + ";\n   ".join(coq_str(w) for w in bl) + "].\n"
@@ -579,6 +602,7 @@ REVIEWED_GLOBALS = {
     ("models/attr.py", ".AttrsModelCodeGenerator", "default_types_style"): "constant",
     ("models/base.py", "", "keywords_set"): "constant", ("models/base.py", "", "builtins_set"): "constant",
     ("models/base.py", "", "other_common_names_set"): "constant", ("models/base.py", "", "blacklist_words"): "constant",
+    ("models/base.py", "", "imported_names_set"): "constant",
     ("models/base.py", "", "ones"): "constant",
     ("models/base.py", ".GenericModelCodeGenerator", "BODY"): "constant", ("models/base.py", ".GenericModelCodeGenerator", "STR_CONVERT_DECORATOR"): "constant",
     ("models/base.py", ".GenericModelCodeGenerator", "FIELD"): "constant", ("models/base.py", ".GenericModelCodeGenerator", "default_types_style"): "constant",
